@@ -325,8 +325,11 @@ def search(ctx):
         ha, hb = HashClient(a), HashClient(b)
         na, nb = sorted(ha.hasher.nodes), sorted(hb.hasher.nodes)
         why = None
+        named = sorted(("%s:%s" % x) if isinstance(x, tuple) else x for x in b)        # the rule's own names: '<host>:<port>' or the socket path
         if na != nb:
             why = "node names differ: %r vs %r" % (na, nb)
+        elif na != named:
+            why = "the nodes are named %r; the placement rule scores '<host>:<port>-<key>' (or '<path>-<key>'), i.e. %r" % (na, named)
         else:
             for k in rk[:60]:
                 sa, sb = ha._get_client(k)[0].server, hb._get_client(k)[0].server
